@@ -15,6 +15,7 @@ import (
 	"os"
 	"os/exec"
 	"path/filepath"
+	"strconv"
 	"strings"
 )
 
@@ -118,17 +119,27 @@ func Assert(c bool, id string) {
 // once per cell and reuses the result.
 // Isolated returns what f yields when run in a fresh process: under the
 // engine the heap is rolled back after the call; natively the test binary
-// re-executes itself and runs f there.  It must be the first stateful thing
-// the harness does.
+// re-executes itself and runs f there (the k-th call of a harness is served by
+// a child that skips the k-1 calls before it).  Everything the harness does
+// before the call must be stateless.
 func Isolated(f func() []byte) []byte {
-	if os.Getenv("VERIF_ISO") == "1" {
-		b := f()
-		fmt.Printf("VERIF-ISO %x\n", b)
-		Cleanup()
-		os.Exit(0)
+	isoCalls++
+	if e := os.Getenv("VERIF_ISO"); e != "" {
+		k, _ := strconv.Atoi(e)
+		if isoCalls < k {
+			// an earlier isolated computation: its result is not needed in
+			// this child and it must not touch this process's state
+			return nil
+		}
+		if isoCalls == k {
+			b := f()
+			fmt.Printf("VERIF-ISO %x\n", b)
+			Cleanup()
+			os.Exit(0)
+		}
 	}
 	cmd := exec.Command(os.Args[0], "-test.run", "^TestVerifReplay$")
-	cmd.Env = append(os.Environ(), "VERIF_ISO=1")
+	cmd.Env = append(os.Environ(), "VERIF_ISO="+strconv.Itoa(isoCalls))
 	out, _ := cmd.CombinedOutput()
 	for _, line := range strings.Split(string(out), "\n") {
 		if strings.HasPrefix(line, "VERIF-ISO ") {
@@ -140,6 +151,8 @@ func Isolated(f func() []byte) []byte {
 	os.Exit(99)
 	return nil
 }
+
+var isoCalls int
 
 var onceCache = map[string]any{}
 
